@@ -52,7 +52,7 @@ func BuildUniverse(root string, apps int, small bool, shards int) *Universe {
 		add("SB", decl(ty, "SB", Struct(F("A", Basic("int")), F("B", Basic("string")))))
 		add("E1", decl(ty, "E1", Basic("int"), Const{"Red", "1"}, Const{"Green", "2"}))
 	} else {
-		for _, b := range []string{"int", "int32", "int64", "string", "bool", "float64", "byte"} {
+		for _, b := range []string{"int", "int32", "int64", "string", "bool", "float64", "byte", "uint8", "rune"} {
 			add(b, Basic(b))
 		}
 		add("NI1", decl(ty, "NI1", Basic("int")))
